@@ -1413,7 +1413,8 @@ SWEEP_CLASSES = {
     "mat": ["C", "F", "T", "S", "R", "N", "Cro", "Fro"],        # (n,k) right / (k,n) left
     "vec32": ["v1", "v1s"],                                     # float32 operands of float64 operators
     "mat32": ["C", "F"],
-    "ivec": ["v1", "v1s", "v1n", "v1ro"],                       # integer index arrays
+    "ivec": ["v1", "v1s", "v1n", "v1ro"],                       # int64 index arrays, with NEGATIVE entries
+    "ivec32": ["v1", "v1s", "v1ro"],                            # the same as int32
     "sq": ["C", "F", "T", "S", "N", "Cro", "Fro"],              # (n,n) arrays operators are constructed from
 }
 SWEEP_ROLES = {
@@ -1421,7 +1422,7 @@ SWEEP_ROLES = {
     "start": {"sides": ["A"], "classes": ["vec", "vec32"]},
     "guess": {"sides": ["A"], "classes": ["vec"]},
     "guessm": {"sides": ["A"], "classes": ["mat"]},
-    "index": {"sides": ["A"], "classes": ["ivec"]},
+    "index": {"sides": ["A"], "classes": ["ivec", "ivec32"]},
     "ctor": {"sides": ["A"], "classes": ["sq"]},
     "ctorv": {"sides": ["A"], "classes": ["vec"]},
 }
@@ -1446,7 +1447,8 @@ SWEEP_PATHS = [
     ("lanczos", "start"), ("arnoldi", "start"), ("exp_lanczos_sv", "start"), ("exp_arnoldi_sv", "start"),
     ("cg_x0", "guess"), ("gmres_x0", "guess"), ("cg_x0_block", "guessm"), ("gmres_x0_block", "guessm"),
     # index arrays
-    ("getitem_rows", "index"), ("getitem_cols", "index"), ("permutation_ctor", "index"),
+    ("getitem_rows", "index"), ("getitem_cols", "index"), ("getitem_rows_only", "index"), ("sliced_ctor", "index"),
+    ("permutation_ctor", "index"),
     # arrays operators are constructed from, followed by the factorisation / decomposition that consumes them
     ("dense_ctor", "ctor"), ("triangular_inv_ctor", "ctor"), ("cholesky_ctor", "ctor"), ("lu_ctor", "ctor"),
     ("eig_ctor", "ctor"), ("logdet_ctor", "ctor"), ("diagonal_ctor", "ctorv"),
@@ -1550,6 +1552,8 @@ def sweep_paths():
     P["gmres_x0_block"] = {"make": gen, "A": lambda A, v, m: cola.solve(A, m["B0"], gm(x0=v))}
     P["getitem_rows"] = {"make": gen, "A": lambda A, v, m: A[v, m["cols"]].to_dense()}
     P["getitem_cols"] = {"make": gen, "A": lambda A, v, m: A[m["cols"], v].to_dense()}
+    P["getitem_rows_only"] = {"make": gen, "A": lambda A, v, m: A[v].to_dense()}
+    P["sliced_ctor"] = {"make": gen, "A": lambda A, v, m: ops.Sliced(A, (v, slice(0, 3))) @ m["b0"][:3]}
     P["permutation_ctor"] = {"A": lambda A, v, m: ops.Permutation(v, dtype=f64) @ m["b0"], "value": "perm"}
     P["dense_ctor"] = {"A": lambda A, v, m: (ops.Dense(v) @ m["b0"], m["b0"] @ ops.Dense(v)), "value": "G"}
     P["triangular_inv_ctor"] = {"A": lambda A, v, m: cola.linalg.inv(ops.Triangular(v, lower=True)) @ m["b0"], "value": "Lw"}
@@ -1581,9 +1585,11 @@ def sweep_value(pname, role, side, cls, m, P):
         return np.array([1., 0., -1., 2.])
     if role == "guessm":
         return rng.randint(-2, 3, size=(n, k)).astype(np.float64)
+    idt = np.int32 if cls == "ivec32" else np.int64
     if role == "index" and "value" not in P:
-        return np.array([0, 2, 3])
-    return np.array(m[P["value"]], copy=True)
+        return np.array([0, -2, -1], dtype=idt)           # entries counting from the end: rows / columns 0, 2, 3
+    v = np.array(m[P["value"]], copy=True)
+    return v.astype(idt) if role == "index" else v
 
 
 def make_layout(kind, vals):
